@@ -242,16 +242,18 @@ impl Connector for DualConnector {
 
         let mut matrix_mapper_left = vec![u16::MAX; self.matrix_connector.num_left()];
         let mut matrix_mapper_right = vec![u16::MAX; self.matrix_connector.num_right()];
-        let mut left_id = 0;
-        let mut right_id = 0;
+        // The counters are wider than the ids: with 65536 classes the last one gets id 65535
+        // and the counter is incremented once more.
+        let mut left_id = 0usize;
+        let mut right_id = 0usize;
         for i in &mut self.left_conn_id_map {
             let map = &mut matrix_mapper_left[usize::from(*i)];
             if *map != u16::MAX {
                 *i = *map;
                 continue;
             }
-            *map = left_id;
-            *i = left_id;
+            *map = u16::try_from(left_id).unwrap();
+            *i = *map;
             left_id += 1;
         }
         for i in &mut self.right_conn_id_map {
@@ -260,8 +262,8 @@ impl Connector for DualConnector {
                 *i = *map;
                 continue;
             }
-            *map = right_id;
-            *i = right_id;
+            *map = u16::try_from(right_id).unwrap();
+            *i = *map;
             right_id += 1;
         }
         let matrix_mapper = ConnIdMapper::new(matrix_mapper_left, matrix_mapper_right);
